@@ -1,4 +1,5 @@
 import NibabelModel.Basic.PySlice
+import NibabelModel.Generated.C18
 /-!
   Model/C18 — executable model of the CIFTI-2 axis logic of `nibabel/cifti2/cifti2_axes.py`
   (core Lean only).  What is modelled:
@@ -469,8 +470,9 @@ structure SerMap where
   unit : Nat
   deriving Repr, DecidableEq, Inhabited
 
-/-- `SeriesAxis.to_mapping` (1399-1417): `series_exponent = 0` -/
-def seriesToMapping (a : Series) : SerMap := ⟨0, a.start, a.step, a.size, a.unit⟩
+/-- `SeriesAxis.to_mapping` (1399-1417): `series_exponent` is the constant REGENERATED from the source
+    (`Generated/C18.lean`, today 0) -/
+def seriesToMapping (a : Series) : SerMap := ⟨Nb.Gen.C18.seriesExponent, a.start, a.step, a.size, a.unit⟩
 /-- `SeriesAxis.from_index_mapping` (1381-1397): `start = series_start * 10 ** series_exponent` … -/
 def seriesFromMapping (m : SerMap) : Series :=
   ⟨m.start * 10 ^ m.exponent, m.step * 10 ^ m.exponent, m.npoints, m.unit⟩
